@@ -30,8 +30,53 @@ func nontrivial(o wobs) bool {
 	return some || rejected
 }
 
+// literalKeys tags the two input shapes on which a literal reading of the property text differs from
+// what the code does (see Properties/C07.v, *_literal_refuted); they are counted in the distribution.
+func literalKeys(c *kit.Ctx, w *World, o wobs) {
+	byID := map[string]SNode{}
+	for _, n := range w.Nodes {
+		byID[n.ID] = n
+	}
+	for mi, ids := range o.Cands {
+		for _, id := range ids {
+			n := byID[id]
+			if n.Node != nil && n.Node.Annos["dnd"] == "true" {
+				w.KfKey = "node-dnd-annotation-ignored-while-unregistered"
+				c.Count("literal:node-dnd-on-unregistered-node-is-candidate")
+			}
+			if methodNames[mi] == "emptiness" {
+				for _, p := range n.Pods {
+					own := func(api, kind string) bool {
+						for _, x := range p.Owners {
+							if x[0] == api && x[1] == kind {
+								return true
+							}
+						}
+						return false
+					}
+					active := p.Phase != "Failed" && p.Phase != "Succeeded" && !p.Terminating
+					if (active || (own("apps/v1", "StatefulSet") && p.Terminating)) && !own("apps/v1", "DaemonSet") && !own("v1", "Node") {
+						if w.KfKey == "" {
+							w.KfKey = "emptiness-with-zero-cost-reschedulable-pod"
+						}
+						c.Count("literal:emptiness-candidate-hosts-reschedulable-pod")
+						break
+					}
+				}
+			}
+		}
+	}
+}
+
+var baseline = map[string][]bool{}
+
 func emit(c *kit.Ctx, w World, cell string) {
+	emitB(c, w, cell, "")
+}
+
+func emitB(c *kit.Ctx, w World, cell, baseName string) {
 	o := runWorld(c, &w)
+	literalKeys(c, &w, o)
 	k := ""
 	if nontrivial(o) {
 		k = key(w)
@@ -48,6 +93,16 @@ func emit(c *kit.Ctx, w World, cell string) {
 				}
 			}
 			c.Count(fmt.Sprintf("cell:%s:%s:%s", methodNames[mi], cell, in))
+			if cell == "none" {
+				baseline[baseName] = append(baseline[baseName], in == "in")
+			} else if bl, ok := baseline[baseName]; ok && len(bl) == len(methodNames) {
+				switch {
+				case bl[mi] && in != "in":
+					c.Count(fmt.Sprintf("flip:%s:%s:candidate->rejected", methodNames[mi], cell))
+				case !bl[mi] && in == "in":
+					c.Count(fmt.Sprintf("flip:%s:%s:rejected->candidate", methodNames[mi], cell))
+				}
+			}
 		}
 	}
 	cands := make([]string, len(o.Cands))
@@ -95,7 +150,7 @@ func main() {
 				if tgp {
 					cell += "+tgp"
 				}
-				emit(c, w, cell)
+				emitB(c, w, cell, b.Name)
 			}
 		}
 	}
